@@ -195,7 +195,7 @@ def astmSimpleRangeCounting( data, aggregate=True ):
         if i == 0:
             continue
         prev = data[ i - 1 ]
-        rstDict[ abs( prev - cur ) ] += 0.5
+        rstDict[ round( abs( prev - cur ), globalConfig.atol ) ] += 0.5
         rstSeq.append( [ prev, cur, 0.5 ] )
 
     if len( rstDict ) == 0:
@@ -261,14 +261,14 @@ def astmRainflowCounting( data, aggregate=True ):
             YContainsS = True
         if X >= Y:
             if YContainsS:
-                rstDict[ Y ] += 0.5
+                rstDict[ round( Y, globalConfig.atol ) ] += 0.5
                 rstSeq.append( [ A, B, 0.5 ])
                 dequeB.appendleft( C )
                 dequeB.appendleft( B )
                 S = None
                 YContainsS = None
             else:
-                rstDict[ Y ] += 1
+                rstDict[ round( Y, globalConfig.atol ) ] += 1
                 rstSeq.append( [ A, B, 1 ] )
                 dequeB.appendleft( C )
                 while dequeA:
@@ -288,7 +288,7 @@ def astmRainflowCounting( data, aggregate=True ):
     while dequeB:
         B = dequeB.popleft()
         Y = abs( A - B )
-        rstDict[ Y ] += 0.5
+        rstDict[ round( Y, globalConfig.atol ) ] += 0.5
         rstSeq.append( [ A, B, 0.5 ] )
         A = B
 
